@@ -132,34 +132,41 @@ class Env:
         return self.geo.x(self.X)
 
 
-def two_sided(rng, cellname, seed=0, cplx=False, mode="poly"):
-    """Two cells sharing a facet on a flat mesh, with a common physical point on it."""
+def two_sided(rng, cellname, seed=0, cplx=False, mode="poly", gdim=None):
+    """Two cells sharing a facet, with a common physical point on it.  gdim == tdim: flat mesh; gdim > tdim: a
+    surface/curve mesh that is folded at the shared facet (the '-' cell leaves the plane of the '+' cell)."""
     t = {"interval": 1, "triangle": 2, "tetrahedron": 3}[cellname]
-    gp = Geometry.random(rng, cellname, t)
+    g = t if gdim is None else gdim
+    gp = Geometry.random(rng, cellname, g)
     fp = int(rng.integers(0, t + 1))
     fm = int(rng.integers(0, t + 1))
     fvp = REF[cellname]["facets"][fp]
     fvm = REF[cellname]["facets"][fm]
     shared = gp.V[list(fvp)]
     perm = rng.permutation(len(fvp))
-    opp_p = [i for i in range(t + 1) if i not in fvp][0]
     opp_m = [i for i in range(t + 1) if i not in fvm][0]
     n = gp.facet_normal(fp)
     centroid = shared.mean(axis=0)
     # the '-' cell's extra vertex: on the other side of the facet
-    for _ in range(100):
-        vm = centroid + n * rng.uniform(0.4, 1.5) + rng.uniform(-0.4, 0.4, t) * (t > 1)
-        Vm = np.zeros((t + 1, t))
+    for _ in range(200):
+        vm = centroid + n * rng.uniform(0.4, 1.5)
+        if t > 1:
+            # tangential shift along the facet
+            T = shared[1:] - shared[0]
+            vm = vm + rng.uniform(-0.4, 0.4, len(T)) @ T
+        if g > t:
+            vm = vm + rng.uniform(-0.8, 0.8, g)
+        Vm = np.zeros((t + 1, g))
         for loc, glob in zip(fvm, perm):
             Vm[loc] = shared[glob]
         Vm[opp_m] = vm
         Jm = (Vm[1:] - Vm[0]).T
         s = np.linalg.svd(Jm, compute_uv=False)
-        if s[-1] > 0.1 and s[0] / s[-1] < 60:
+        if s[-1] > 0.1 and s[0] / s[-1] < 60 and float(n @ (vm - centroid)) > 0.2:
             break
     else:
         raise RuntimeError("no '-' cell")
-    gm = Geometry(cellname, Vm)
+    gm = Geometry(cellname, Vm, orientation=float(rng.choice([-1.0, 1.0])) if g > t else 1.0)
     Xp = gp.random_facet_point(rng, fp)
     x = gp.x(Xp)
     Xm = gm.X_of(x)
